@@ -81,6 +81,72 @@ and are audited with this property: -/
 -- also: Restful.C02_curly_roots_witness
 -- also: Restful.C02_curly_rootverb_witness
 
+/-! ### non-vacuity (audit)
+
+The instances `C02Witness.cfgC` / `cfgJ` (Lemmas/Classify.lean: three services — a literal root with
+three routes, a variable root, a route-less root with a regex variable) already carry `decide`d
+examples that every hypothesis of `C02_classify_curly` / `C02_classify_jsr_partial` holds and that
+each row of the table is reached.  Added here: the remaining theorems on the same instances, and
+the fact that `Spec.c02Holds` is falsified by wrong observations. -/
+namespace C02Example
+open C02Witness
+
+/-- `C02_total` on both instances (its two implications are met non-trivially: the route-less
+    third service is what `rootsRead` speaks about) -/
+example : ∀ w, route Eany cfgC post ≠ .panic w :=
+  C02_total Eany cfgC (by decide) (fun h => by cases h) (fun _ => by decide) post
+example : ∀ w, route Eany cfgJ post ≠ .panic w :=
+  C02_total Eany cfgJ (by decide) (fun _ => by decide) (fun h => by cases h) post
+example : cfgC.services.any (fun s => s.routes.isEmpty) = true ∧ Curly.rootsRead cfgC = true ∧
+    Jsr.rootsRead cfgJ = true := by decide
+
+/-- the route-less service `/v/{n:[0-9]+}` of that table -/
+def vsvc : Service := { id := 2, root := "/v/{n:[0-9]+}".toList, routes := [] }
+
+/-- `C02_claimScore` on the route-less service with a regex root, under the oracle that evaluates
+    `[0-9]+`: both sides are `.yes 21` on `/v/12/z` and `.no` on `/v/ab/z` (the regex decides) -/
+example : Curly.wsScoreE E03 (tokenize "/v/12/z".toList) (tokenize vsvc.rootPath) =
+    match Spec.claimScore E03 vsvc (tokenize "/v/12/z".toList) with
+    | some sc => .yes sc
+    | none => .no :=
+  C02_claimScore E03 cfgC rfl (by decide) (by decide) vsvc (by decide) _
+example :
+    Spec.claimScore E03 vsvc (tokenize "/v/12/z".toList) = some 21 ∧
+    Spec.claimScore E03 vsvc (tokenize "/v/ab/z".toList) = none ∧
+    Curly.wsScoreE E03 (tokenize "/v/ab/z".toList) (tokenize vsvc.rootPath) = .no := by
+  decide
+
+/-- DELETE /users/7 on that table: 405, Allow = {GET, PUT} -/
+def del7 : Req := { post with method := "DELETE".toList, path := "/users/7".toList }
+
+/-- `Spec.c02Holds` is not trivially true.  On the POST that runs route 1 once it is falsified by:
+    two invocations, no invocation, a 404, another route of the service, another service.  On the
+    DELETE answered 405 it accepts the Allow set in any order and is falsified by: an Allow set that
+    misses a method, one with a method too many, no Allow, a 404, an invocation.  A 415 may not be
+    reported as 406 nor a 406 as 415, a 404 not as 405.  Both routers. -/
+example :
+    Spec.c02Holds Eany cfgC post (.selected 0 1 []) 1 = true ∧
+    Spec.c02Holds Eany cfgC post (.selected 0 1 []) 2 = false ∧
+    Spec.c02Holds Eany cfgC post (.selected 0 1 []) 0 = false ∧
+    Spec.c02Holds Eany cfgC post (.error 404 none) 0 = false ∧
+    Spec.c02Holds Eany cfgC post (.selected 0 3 []) 1 = false ∧
+    Spec.c02Holds Eany cfgC post (.selected 1 1 []) 1 = false ∧
+    Spec.c02Holds Eany cfgC del7 (.error 405 (some ["PUT".toList, "GET".toList])) 0 = true ∧
+    Spec.c02Holds Eany cfgC del7 (.error 405 (some ["GET".toList])) 0 = false ∧
+    Spec.c02Holds Eany cfgC del7 (.error 405 (some ["GET".toList, "PUT".toList, "POST".toList])) 0 = false ∧
+    Spec.c02Holds Eany cfgC del7 (.error 405 none) 0 = false ∧
+    Spec.c02Holds Eany cfgC del7 (.error 404 none) 0 = false ∧
+    Spec.c02Holds Eany cfgC del7 (.error 405 (some ["GET".toList, "PUT".toList])) 1 = false ∧
+    Spec.c02Holds Eany cfgC { post with method := "PUT".toList, path := "/users/7".toList } (.error 406 none) 0 = false ∧
+    Spec.c02Holds Eany cfgC { post with accept := "text/html".toList } (.error 415 none) 0 = false ∧
+    Spec.c02Holds Eany cfgC { post with path := "/users/7/x".toList } (.error 405 (some [])) 0 = false ∧
+    Spec.c02Holds Eany cfgJ del7 (.error 405 (some ["GET".toList])) 0 = false ∧
+    Spec.c02Holds Eany cfgJ post (.error 404 none) 0 = false ∧
+    Spec.c02Holds Eany cfgJ post (.selected 0 1 []) 2 = false := by
+  decide
+
+end C02Example
+
 /-! The frame condition (Lemmas/StateShape.lean): the code has exactly the state this property's model
     accounts for — no further package-level variable, struct type or field; constants as modelled. -/
 -- also: Restful.StateShape.globals_shape
